@@ -33,6 +33,7 @@ const (
 	jArr
 	jObj
 	jB64 // []byte leaf: either concrete bytes or a nested blob
+	jOpaque // BSON only: a leaf kept as the Go value it came from (time.Time)
 )
 
 type jnode struct {
@@ -779,7 +780,7 @@ func (ex *exec) junmarshal(fr *frame, n *jnode, t types.Type, addr *value) {
 }
 
 func kindName(k jkind) string {
-	return [...]string{"null", "bool", "number", "string", "array", "object", "string"}[k]
+	return [...]string{"null", "bool", "number", "string", "array", "object", "string", "opaque"}[k]
 }
 
 // jsetField finds the struct field for key (exact, then case-insensitive), descending into embedded structs.
